@@ -133,6 +133,18 @@ inductive Outcome
   | unsupported (why : String)
   deriving Inhabited
 
+/-- what `BaseTemplate.render` attaches to an exception that escaped the render function:
+`rcontext['__error__']` records, through `create_formatted_exception` (which cannot mix `RenderError`
+into `Exception`/`BaseException` themselves, and — after the D-12a fix — leaves everything outside the
+`Exception` hierarchy alone) -/
+def errorRecords (cfg : ECfg) (body : Str) (ex : Exc) (token : Option (Nat × Nat)) : List ErrorOut :=
+  if ex.cls == "Exception" || ex.cls == "BaseException" || !isSubclass cfg ex.cls ["Exception"] then [] else
+    match token with
+    | some (pos, len) =>
+      let (l, c) := Tok.location body { str := [], pos := pos }
+      [{ text := (body.drop pos).take len, line := l, col := c }]
+    | none => []
+
 /-- `PageTemplate(src, …)(**vars)` -/
 def render (r : RenderReq) : Outcome :=
   let xml := isXmlDoc r.src && !r.textMode
@@ -172,15 +184,7 @@ def render (r : RenderReq) : Outcome :=
       | .unsupported w => .unsupported w
       | .raised ex s =>
         -- the render function's handler records tokens[__token]
-        -- `create_formatted_exception` cannot mix RenderError into `Exception` itself (MRO conflict):
-        -- such an exception comes out without the formatter, i.e. without records (finding D-12c)
-        -- and exceptions outside the Exception hierarchy are not re-typed at all
-        let errs : List ErrorOut := if ex.cls == "Exception" || ex.cls == "BaseException" || !isSubclass cfg ex.cls ["Exception"] then [] else
-          match s.x.token with
-          | some (pos, len) =>
-            let (l, c) := Tok.location body { str := [], pos := pos }
-            [{ text := (body.drop pos).take len, line := l, col := c }]
-          | none => []
+        let errs := errorRecords cfg body ex s.x.token
         .raised ex errs s.x.log s.x.tlog
 
 end ChamVerif
